@@ -153,7 +153,7 @@ func newWorldCase(w *world, mode string) *worldCase {
 }
 
 func (wc *worldCase) emit(c *kit.Ctx) {
-	if len(wc.computes) == 0 && len(wc.filters) == 0 {
+	if len(wc.computes) == 0 && len(wc.filters) == 0 && wc.single == "None" && wc.multi == "None" {
 		return
 	}
 	in := caseJSON{Kind: "world:" + wc.mode, World: wc.w.spec, KF: wc.kf}
@@ -168,11 +168,12 @@ func (wc *worldCase) emit(c *kit.Ctx) {
 			}
 		}
 		if len(clean) > 0 {
-			c.AddCase(fmt.Sprintf("CaseWorld %s %s %s None None []", kit.GBool(wc.w.spec.S2S), wc.w.gCatalog(allMinKeys), kit.GList(clean)),
+			c.AddCase(fmt.Sprintf("CaseWorld %s %s false [] %s None None []", kit.GBool(wc.w.spec.S2S), wc.w.gCatalog(allMinKeys), kit.GList(clean)),
 				caseJSON{Kind: "world:" + wc.mode + ":entries_without_the_finding_shape", World: wc.w.spec}, "")
 		}
 	}
-	id := c.AddCase(fmt.Sprintf("CaseWorld %s %s %s %s %s %s", kit.GBool(wc.w.spec.S2S), wc.w.gCatalog(allMinKeys), kit.GList(wc.computes), wc.single, wc.multi, kit.GList(wc.filters)),
+	id := c.AddCase(fmt.Sprintf("CaseWorld %s %s %s %s %s %s %s %s", kit.GBool(wc.w.spec.S2S), wc.w.gCatalog(allMinKeys), kit.GBool(wc.w.balanced()), wc.w.gBudget(),
+		kit.GList(wc.computes), wc.single, wc.multi, kit.GList(wc.filters)),
 		in, strings.Join(wc.keys, "+"))
 	for _, p := range wc.problems {
 		c.Fail(id, "corr:projection: "+p, "", in)
@@ -225,21 +226,123 @@ func computeCase(c *kit.Ctx, wc *worldCase, cons computer, cs []*disruption.Cand
 	return true, cmd
 }
 
-func bigBudget(w *world) map[string]int {
+// budget: the disruptionBudgetMapping handed to ComputeCommands (a fresh map: the methods decrement it).
+func (w *world) budget() map[string]int {
 	m := map[string]int{}
 	for _, p := range w.spec.Pools {
 		m[p.Name] = 1000
+		if p.Budget != nil {
+			m[p.Name] = *p.Budget
+		}
 	}
 	return m
+}
+
+func (w *world) gBudget() string {
+	m := w.budget()
+	return kit.GListOf(kit.SortedKeys(m), func(k string) string { return kit.GPair(gs(k), gz(int64(m[k]))) })
+}
+
+func (w *world) balanced() bool {
+	for _, p := range w.spec.Pools {
+		if p.Policy == "Balanced" {
+			return true
+		}
+	}
+	return false
+}
+
+// withTotals hands the balanced evaluator its NodePool totals the way the disruption controller does.
+func (w *world) withTotals(meth disruption.Method) {
+	setter, ok := meth.(disruption.NodePoolTotalsSetter)
+	if !ok || !w.balanced() {
+		return
+	}
+	_, totals, err := disruption.GetCandidatesWithTotals(w.ctx, w.cluster, w.c, w.recorder, w.clk, w.cp, meth.ShouldDisrupt, meth.Class(), w.queue, nil)
+	if err != nil {
+		panic(err)
+	}
+	setter.SetNodePoolTotals(totals)
+}
+
+func namePools(cs []*disruption.Candidate) string {
+	return kit.GListOf(cs, func(c *disruption.Candidate) string { return kit.GPair(gs(c.Name()), gs(c.NodePool.Name)) })
+}
+
+// budgeted: the candidates multi-node consolidation keeps, in order, under the mapping.
+func budgeted(m map[string]int, cs []*disruption.Candidate) []*disruption.Candidate {
+	var out []*disruption.Candidate
+	for _, cd := range cs {
+		if m[cd.NodePool.Name] == 0 {
+			continue
+		}
+		m[cd.NodePool.Name]--
+		out = append(out, cd)
+	}
+	return out
+}
+
+// noCommand emits a case that demands "no command": used for a candidate that is being deleted, for an API fault in
+// the simulation, and for the second call on an unchanged (consolidated) cluster.
+func noCommand(c *kit.Ctx, w *world, kind string, cmds []disruption.Command, err error) {
+	obs := "ONoOp"
+	for _, cmd := range cmds {
+		if cmd.Decision() == disruption.DeleteDecision {
+			obs = "ODelete"
+		} else if cmd.Decision() == disruption.ReplaceDecision {
+			obs = "(OReplace [] [])"
+		}
+	}
+	c.Count("no_command/" + kind + fmt.Sprintf(":err=%v", err != nil))
+	c.AddCase("CaseDeleting "+obs, caseJSON{Kind: kind, World: w.spec, Extra: fmt.Sprint(err)}, kind)
+}
+
+// shouldCase: every disruptable node with what the ShouldDisrupt predicates read, and what each method kept.
+func shouldCase(c *kit.Ctx, w *world) {
+	cons := disruption.MakeConsolidation(w.clk, w.cluster, w.c, w.prov, w.cp, w.recorder, w.queue)
+	empt := disruption.NewEmptiness(cons)
+	all := w.candidatesWith(func(context.Context, *disruption.Candidate) bool { return true }, disruption.GracefulDisruptionClass)
+	kc := names(w.candidatesWith(cons.ShouldDisrupt, disruption.GracefulDisruptionClass))
+	ke := names(w.candidatesWith(empt.ShouldDisrupt, disruption.GracefulDisruptionClass))
+	for _, cd := range all {
+		it, _, _, _ := cd.VerifInternals()
+		_, hasCT := cd.Labels()[v1.CapacityTypeLabelKey]
+		_, hasZone := cd.Labels()[corev1.LabelTopologyZone]
+		switch {
+		case cd.NodePool.Spec.Replicas != nil:
+			c.Count("candidate/static_nodepool")
+		case it == nil:
+			c.Count("candidate/unknown_instance_type")
+		case !hasCT:
+			c.Count("candidate/no_capacity_type_label")
+		case !hasZone:
+			c.Count("candidate/no_zone_label")
+		case cd.NodePool.Spec.Disruption.ConsolidateAfter.Duration == nil:
+			c.Count("candidate/consolidate_never")
+		case cd.NodePool.Spec.Disruption.ConsolidationPolicy == v1.ConsolidationPolicyWhenEmpty:
+			c.Count("candidate/policy_when_empty")
+		case cd.NodePool.Spec.Disruption.ConsolidationPolicy.IsBalanced():
+			c.Count("candidate/policy_balanced")
+		case !cd.NodeClaim.StatusConditions().Get(v1.ConditionTypeConsolidatable).IsTrue():
+			c.Count("candidate/not_consolidatable")
+		default:
+			c.Count("candidate/plain")
+		}
+	}
+	c.Count(fmt.Sprintf("candidate/not_disruptable_nodes=%d", len(w.spec.Nodes)-len(all)))
+	c.AddCase(fmt.Sprintf("CaseShould %s %s %s", kit.GListOf(all, func(cd *disruption.Candidate) string { return w.gState(cd) }), gstrs(kc), gstrs(ke)),
+		caseJSON{Kind: "should_disrupt", World: w.spec}, fmt.Sprintf("should:%d:%d:%d", len(all), len(kc), len(ke)))
 }
 
 func runSingle(c *kit.Ctx, g genOut) {
 	w := newWorld(g.spec)
 	wc := newWorldCase(w, g.mode)
+	shouldCase(c, w)
 	cons := disruption.MakeConsolidation(w.clk, w.cluster, w.c, w.prov, w.cp, w.recorder, w.queue)
 	meth := disruption.NewSingleNodeConsolidation(cons, disruption.WithValidator(passValidator{}))
+	w.withTotals(meth)
 	cs := w.candidatesWith(meth.ShouldDisrupt, meth.Class())
-	c.Count(fmt.Sprintf("world/%s:candidates=%d", g.mode, len(cs)))
+	c.Count(fmt.Sprintf("world/%s:candidates=%d:pools=%d", g.mode, len(cs), len(g.spec.Pools)))
 	allStable := true
 	for _, cd := range cs {
 		stable, _ := computeCase(c, wc, &cons, []*disruption.Candidate{cd}, g.mode)
@@ -247,10 +350,10 @@ func runSingle(c *kit.Ctx, g genOut) {
 	}
 	var cmds []disruption.Command
 	if len(cs) > 0 && allStable {
-		// end to end: the candidate loop
+		// end to end: the candidate loop (budgets: a pool without budget is skipped)
 		var err error
-		tried := names(cs)
-		cmds, err = meth.ComputeCommands(w.ctx, bigBudget(w), cs...)
+		given := namePools(cs)
+		cmds, err = meth.ComputeCommands(w.ctx, w.budget(), cs...)
 		if err != nil {
 			panic(fmt.Sprintf("single ComputeCommands: %v", err))
 		}
@@ -268,35 +371,96 @@ func runSingle(c *kit.Ctx, g genOut) {
 			out = fmt.Sprintf("(Some (%s, %s))", gs(cmds[0].Candidates[0].Name()), obsG)
 			key = "single:" + string(cmds[0].Decision())
 		}
+		for _, v := range w.budget() {
+			if v == 0 {
+				key += ":a_pool_without_budget"
+				break
+			}
+		}
+		if w.balanced() {
+			key += ":balanced"
+		}
 		c.Count("method/" + key)
 		wc.keys = append(wc.keys, key)
-		wc.single = fmt.Sprintf("(Some (%s, %s))", gstrs(tried), out)
+		wc.single = fmt.Sprintf("(Some (%s, %s))", given, out)
+		if len(cmds) == 0 {
+			// nothing found: unless a budget was in the way the cluster is now marked consolidated and a second call
+			// returns at once; either way it must not produce a command
+			again, err := meth.ComputeCommands(w.ctx, w.budget(), cs...)
+			noCommand(c, w, "second_call_after_no_command", again, err)
+		}
 	}
 	wc.emit(c)
-	// validation of the proposal against a re-simulation after the world moved on
+	// validation of the proposal after the TTL, the world having moved on
 	if len(cmds) == 1 {
-		runValidate(c, w, cmds[0], false)
+		runValidate(c, w, false, cs)
+	} else if len(cs) > 0 && c.Rand.Chance(1, 6) {
+		// a candidate is marked for deletion after the candidates were built
+		w.cluster.MarkForDeletion(cs[0].ProviderID())
+		cmd, err := cons.VerifComputeConsolidation(w.ctx, cs[0])
+		noCommand(c, w, "candidate_deleting", []disruption.Command{cmd}, err)
+		w.cluster.UnmarkForDeletion(cs[0].ProviderID())
+	} else if len(cs) > 1 && (c.Rand.Chance(1, 5) || g.mode == "probe_timeout") {
+		// the 3-minute timeout of the single-node loop: every published event costs 4 minutes, so the loop gives up after
+		// the first candidate that is not consolidatable; the next run starts with the NodePools it has not seen
+		rec := &steppingRecorder{EventRecorder: w.recorder, clk: w.clk, step: 4 * time.Minute}
+		cons2 := disruption.MakeConsolidation(w.clk, w.cluster, w.c, w.prov, w.cp, rec, w.queue)
+		m2 := disruption.NewSingleNodeConsolidation(cons2, disruption.WithValidator(passValidator{}))
+		got, err := m2.ComputeCommands(w.ctx, w.budget(), cs...)
+		c.Count(fmt.Sprintf("timeout/single:first_run:commands=%d:unseen_pools=%d", len(got), m2.PreviouslyUnseenNodePools.Len()))
+		rec.step = 0
+		got2, err2 := m2.ComputeCommands(w.ctx, w.budget(), cs...)
+		c.Count(fmt.Sprintf("timeout/single:second_run:commands=%d", len(got2)))
+		// whatever the loop returns under time pressure must be a decision computeConsolidation makes for that candidate
+		for _, g := range [][]disruption.Command{got, got2} {
+			for _, cmd := range g {
+				if len(cmd.Candidates) != 1 || !wc.have[cmd.Candidates[0].Name()] {
+					c.Fail(c.NextID(), "oracle:pods_have_home: command under timeout for an unknown candidate", "", w.spec)
+				}
+			}
+		}
+		_, _ = err, err2
+	} else if len(cs) > 0 && c.Rand.Chance(1, 5) {
+		// the API fails while the simulation lists PodDisruptionBudgets: no decision may come out of it
+		w.fail = kit.Pick(c.Rand, []string{"pdb", "pods", "nodepools"})
+		m2 := disruption.NewSingleNodeConsolidation(cons, disruption.WithValidator(passValidator{}))
+		got, err := m2.ComputeCommands(w.ctx, w.budget(), cs...)
+		noCommand(c, w, "fault:list_"+w.fail+":single", got, err)
+		if len(cs) > 1 {
+			m3 := disruption.NewMultiNodeConsolidation(cons, disruption.WithValidator(passValidator{}))
+			got, err = m3.ComputeCommands(w.ctx, w.budget(), cs...)
+			noCommand(c, w, "fault:list_"+w.fail+":multi", got, err)
+		}
+		w.fail = ""
 	}
 }
 
 func runMulti(c *kit.Ctx, g genOut) {
 	w := newWorld(g.spec)
 	wc := newWorldCase(w, "multi")
+	shouldCase(c, w)
 	cons := disruption.MakeConsolidation(w.clk, w.cluster, w.c, w.prov, w.cp, w.recorder, w.queue)
 	meth := disruption.NewMultiNodeConsolidation(cons, disruption.WithValidator(passValidator{}))
+	w.withTotals(meth)
 	cs := w.candidatesWith(meth.ShouldDisrupt, meth.Class())
-	c.Count(fmt.Sprintf("world/multi:candidates=%d", len(cs)))
-	if len(cs) < 2 {
+	c.Count(fmt.Sprintf("world/multi:candidates=%d:pools=%d", len(cs), len(g.spec.Pools)))
+	if len(cs) == 0 {
 		return
 	}
-	// ComputeCommands sorts the slice it is given in place: run it first, then probe every prefix in that order
-	cmds, err := meth.ComputeCommands(w.ctx, bigBudget(w), cs...)
+	// ComputeCommands sorts the slice it is given in place: run it first, then probe every prefix of the candidates
+	// the budgets leave, in that order
+	cmds, err := meth.ComputeCommands(w.ctx, w.budget(), cs...)
 	if err != nil {
 		panic(fmt.Sprintf("multi ComputeCommands: %v", err))
 	}
+	if len(cmds) == 0 {
+		again, err := meth.ComputeCommands(w.ctx, w.budget(), cs...)
+		noCommand(c, w, "second_call_after_no_command:multi", again, err)
+	}
+	dis := budgeted(w.budget(), cs)
 	allStable := true
-	for k := 2; k <= len(cs); k++ {
-		stable, _ := computeCase(c, wc, &cons, cs[:k], "multi")
+	for k := 2; k <= len(dis); k++ {
+		stable, _ := computeCase(c, wc, &cons, dis[:k], "multi")
 		allStable = allStable && stable
 	}
 	if allStable {
@@ -305,24 +469,32 @@ func runMulti(c *kit.Ctx, g genOut) {
 		if len(cmds) == 1 {
 			k := len(cmds[0].Candidates)
 			got := strings.Join(names(cmds[0].Candidates), ",")
-			if k > len(cs) || got != strings.Join(names(cs[:k]), ",") {
-				wc.problems = append(wc.problems, "multi-node command is not a prefix of the sorted candidates: "+got)
+			if k > len(dis) || got != strings.Join(names(dis[:k]), ",") {
+				wc.problems = append(wc.problems, "multi-node command is not a prefix of the budgeted sorted candidates: "+got)
 				k = 0
 			}
 			obsG, p2 := w.gObs(cmds[0], cmds[0].Candidates)
 			wc.problems = append(wc.problems, p2...)
 			out = fmt.Sprintf("(Some (%d%%nat, %s))", k, obsG)
-			key = fmt.Sprintf("multi:%s:%d_of_%d", cmds[0].Decision(), k, len(cs))
+			key = fmt.Sprintf("multi:%s:%d_of_%d", cmds[0].Decision(), k, len(dis))
+		}
+		if len(dis) < len(cs) {
+			key += ":budget_limited"
+		}
+		if w.balanced() {
+			key += ":balanced"
 		}
 		c.Count("method/" + key)
 		wc.keys = append(wc.keys, key)
-		wc.multi = fmt.Sprintf("(Some (%s, %s))", gstrs(names(cs)), out)
+		wc.multi = fmt.Sprintf("(Some (%s, %s))", namePools(cs), out)
 	}
 	// filterOutSameInstanceType directly, on synthetic replacements over this world's candidates
-	runFilter(c, wc, cs)
+	if len(cs) >= 2 {
+		runFilter(c, wc, cs)
+	}
 	wc.emit(c)
 	if len(cmds) == 1 {
-		runValidate(c, w, cmds[0], true)
+		runValidate(c, w, true, cs)
 	}
 }
 
@@ -494,7 +666,39 @@ func (w *world) boundNow(nodes []string) []*corev1.Pod {
 // worldChange picks what happens during the validation TTL.
 func worldChange(r *kit.Rand, w *world, cmd disruption.Command) (string, func()) {
 	target := kit.Pick(r, cmd.Candidates).Name()
-	switch r.Intn(10) {
+	switch r.Intn(15) {
+	case 11: // an API fault while validating: Validate fails with a plain error, no command may come out
+		kind := kit.Pick(r, []string{"pdb", "pods", "nodepools"})
+		return "fault:list_" + kind, func() { w.fail = kind }
+	case 12: // the candidate is nominated after the re-simulation, before the final re-validation of the candidates
+		n := 0
+		return "nominated_before_revalidation", func() {
+			w.onList = func(kind string) {
+				if kind == "pdb" {
+					if n++; n == 3 {
+						w.cluster.NominateNodeForPod(w.ctx, providerID(target))
+					}
+				}
+			}
+		}
+	case 13: // ... or between rebuilding the candidates and the nomination / budget loop
+		n := 0
+		return "nominated_while_validating_candidates", func() {
+			w.onList = func(kind string) {
+				if kind == "nodepools" {
+					if n++; n == 2 {
+						w.cluster.NominateNodeForPod(w.ctx, providerID(target))
+					}
+				}
+			}
+		}
+	case 14: // room appears elsewhere: a replace command is no longer needed
+		return "roomy_node_added", func() {
+			w.addNodeLive(nodeSpec{Name: "roomy", Pool: cmd.Candidates[0].NodePool.Name, IT: "c0", CT: "on-demand", Zone: "z1", CPU: 64, Init: true, Protect: true})
+		}
+	case 10: // the NodePool's disruption budget is closed during the TTL
+		pool := cmd.Candidates[0].NodePool.Name
+		return "budget_closed", func() { w.closeBudget(pool) }
 	case 0:
 		if len(cmd.Replacements) == 1 && len(cmd.Replacements[0].InstanceTypeOptions) > 0 {
 			gone := kit.Pick(r, cmd.Replacements[0].InstanceTypeOptions).Name
@@ -542,24 +746,80 @@ func worldChange(r *kit.Rand, w *world, cmd disruption.Command) (string, func())
 	return "none", func() {}
 }
 
-// runValidate: a proposal was computed; while the REAL validator waits for the validation TTL the world moves on; then
-// everything the oracle and the model read is taken from the world as it is at validation time: the candidates rebuilt
-// from the cluster state, the pods bound to the candidate nodes in the API, the harness's simulation over them.
-func runValidate(c *kit.Ctx, w *world, cmd disruption.Command, multi bool) {
-	cons := disruption.MakeConsolidation(w.clk, w.cluster, w.c, w.prov, w.cp, w.recorder, w.queue)
-	val := disruption.NewSingleConsolidationValidator(cons)
-	kind := "single"
-	if multi {
-		val = disruption.NewMultiConsolidationValidator(cons)
-		kind = "multi"
+// closeBudget edits the NodePool in the API: budgets [{nodes: "0"}].
+func (w *world) closeBudget(pool string) {
+	np := &v1.NodePool{}
+	if err := w.c.Get(w.ctx, client.ObjectKey{Name: pool}, np); err != nil {
+		panic(err)
 	}
-	change, apply := worldChange(c.Rand, w, cmd)
-	var verr error
-	duringTTL(w, apply, func() { _, verr = val.Validate(w.ctx, cmd, validationTTL) })
+	np.Spec.Disruption.Budgets = []v1.Budget{{Nodes: "0"}}
+	if err := w.c.Update(w.ctx, np); err != nil {
+		panic(err)
+	}
+}
+
+// ttlValidator sits where the method's validator sits: it remembers the proposal, lets the world move on while the REAL
+// validator waits for the validation TTL on the FakeClock, and returns the real validator's verdict.
+type ttlValidator struct {
+	w        *world
+	inner    disruption.Validator
+	pick     func(disruption.Command) (string, func())
+	proposal *disruption.Command
+	change   string
+	err      error
+}
+
+func (t *ttlValidator) Validate(ctx context.Context, cmd disruption.Command, _ time.Duration) (disruption.Command, error) {
+	cp := cmd
+	t.proposal = &cp
+	var apply func()
+	t.change, apply = t.pick(cmd)
+	var out disruption.Command
+	duringTTL(t.w, apply, func() { out, t.err = t.inner.Validate(ctx, cmd, validationTTL) })
+	return out, t.err
+}
+
+// runValidate: the method computes its proposal again, this time with the REAL validator behind the TTL; while it waits
+// the world moves on; then everything the oracle and the model read is taken from the world as it is at validation time:
+// the candidates rebuilt from the cluster state, the pods bound to the candidate nodes in the API, the budgets, the
+// harness's simulation over the current candidates.
+func runValidate(c *kit.Ctx, w *world, multi bool, cs []*disruption.Candidate) {
+	cons := disruption.MakeConsolidation(w.clk, w.cluster, w.c, w.prov, w.cp, w.recorder, w.queue)
+	tv := &ttlValidator{w: w, pick: func(cmd disruption.Command) (string, func()) { return worldChange(c.Rand, w, cmd) }}
+	kind := "single"
+	var meth disruption.Method
+	if multi {
+		kind = "multi"
+		tv.inner = disruption.NewMultiConsolidationValidator(cons)
+		meth = disruption.NewMultiNodeConsolidation(cons, disruption.WithValidator(tv))
+	} else {
+		tv.inner = disruption.NewSingleConsolidationValidator(cons)
+		meth = disruption.NewSingleNodeConsolidation(cons, disruption.WithValidator(tv))
+	}
+	w.withTotals(meth)
+	cmds, err := meth.ComputeCommands(w.ctx, w.budget(), cs...)
+	w.onList = nil
+	if w.fail != "" {
+		noCommand(c, w, "fault:list_"+w.fail+":during_validation:"+kind, cmds, err)
+		w.fail = ""
+		return
+	}
+	if err != nil {
+		panic(fmt.Sprintf("%s ComputeCommands with the real validator: %v", kind, err))
+	}
+	if tv.proposal == nil {
+		c.Count("validated/" + kind + ":no_proposal")
+		return
+	}
+	cmd := *tv.proposal
+	change, verr := tv.change, tv.err
 	if verr != nil && !disruption.IsValidationError(verr) {
 		panic(fmt.Sprintf("Validate: %v", verr))
 	}
-	accepted := verr == nil
+	accepted := len(cmds) == 1
+	if accepted != (verr == nil) {
+		c.Fail(c.NextID(), "corr:projection: ComputeCommands does not follow its validator's verdict", "", w.spec)
+	}
 	// ---- the world at validation time
 	proposed := names(cmd.Candidates)
 	want := sets.New(proposed...)
@@ -629,20 +889,21 @@ func runValidate(c *kit.Ctx, w *world, cmd disruption.Command, multi bool) {
 
 func runEmpty(c *kit.Ctx, g genOut, forceReal bool) {
 	w := newWorld(g.spec)
+	shouldCase(c, w)
 	cons := disruption.MakeConsolidation(w.clk, w.cluster, w.c, w.prov, w.cp, w.recorder, w.queue)
 	real := c.Rand.Bool() || forceReal
 	meth := disruption.NewEmptiness(cons, disruption.WithValidator(passValidator{}))
 	// hand Emptiness every disruptable node (it re-checks IsEmpty itself), or only what it asks for
 	filter := meth.ShouldDisrupt
-	if c.Rand.Bool() {
+	if c.Rand.Bool() && !real {
 		filter = func(context.Context, *disruption.Candidate) bool { return true }
 	}
 	cs := w.candidatesWith(filter, meth.Class())
-	given := w.gCands(cs)
-	cmds, err := meth.ComputeCommands(w.ctx, bigBudget(w), cs...)
+	cmds, err := meth.ComputeCommands(w.ctx, w.budget(), cs...)
 	if err != nil {
 		panic(fmt.Sprintf("emptiness ComputeCommands: %v", err))
 	}
+	given := w.gCands(cs) // ComputeCommands sorted cs in place: the method's order
 	var sel []string
 	withPods := false
 	for _, cmd := range cmds {
@@ -658,53 +919,99 @@ func runEmpty(c *kit.Ctx, g genOut, forceReal bool) {
 	}
 	sort.Strings(sel)
 	key := fmt.Sprintf("empty:selected=%d_of_%d", len(sel), len(cs))
+	for _, v := range w.budget() {
+		if v < 1000 {
+			key += ":budgeted"
+			break
+		}
+	}
 	c.Count("method/" + key)
 	if withPods {
 		c.Count("shape:empty_node_with_nonpositive_cost_pods")
 	}
-	c.AddCase(fmt.Sprintf("CaseEmpty %s %s", given, gstrs(sel)), caseJSON{Kind: "emptiness", World: w.spec, Cands: names(cs)}, fmt.Sprint(key, withPods))
+	c.AddCase(fmt.Sprintf("CaseEmpty %s %s %s", w.gBudget(), given, gstrs(sel)), caseJSON{Kind: "emptiness", World: w.spec, Cands: names(cs)}, fmt.Sprint(key, withPods))
+	if len(cmds) == 0 {
+		again, err := meth.ComputeCommands(w.ctx, w.budget(), cs...)
+		noCommand(c, w, "second_call_after_no_command:emptiness", again, err)
+	}
 	if !real || len(cmds) != 1 {
 		return
 	}
-	// the real EmptinessValidator after the TTL, the world having moved on
-	cmd := cmds[0]
-	target := kit.Pick(c.Rand, cmd.Candidates).Name()
-	change, apply := "none", func() {}
-	if !forceReal {
-		switch c.Rand.Intn(6) {
-		case 0:
-			change, apply = "pod_bound_to_candidate:default_cost", func() { w.bindPod(podSpec{Name: "late-0", CPUm: 200}, target) }
-		case 1:
-			change, apply = "pod_bound_to_candidate:zero_cost", func() { w.bindPod(podSpec{Name: "late-0", CPUm: 200, Del: ptr(int64(-134217728))}, target) }
-		case 2:
-			change, apply = "candidate_nominated", func() { w.cluster.NominateNodeForPod(w.ctx, providerID(target)) }
-		case 3:
-			change, apply = "candidate_marked_for_deletion", func() { w.cluster.MarkForDeletion(providerID(target)) }
-		case 4:
-			change, apply = "pod_deleted_from_candidate", func() { w.deletePodOn(target) }
+	// the real EmptinessValidator behind the TTL, the world moving on while it waits
+	tv := &ttlValidator{w: w, inner: disruption.NewEmptinessValidator(cons), pick: func(cmd disruption.Command) (string, func()) {
+		target := kit.Pick(c.Rand, cmd.Candidates).Name()
+		if forceReal {
+			return "none", func() {}
 		}
+		switch c.Rand.Intn(9) {
+		case 7:
+			kind := kit.Pick(c.Rand, []string{"pdb", "pods", "nodepools"})
+			return "fault:list_" + kind, func() { w.fail = kind }
+		case 0:
+			return "pod_bound_to_candidate:default_cost", func() { w.bindPod(podSpec{Name: "late-0", CPUm: 200}, target) }
+		case 1:
+			return "pod_bound_to_candidate:zero_cost", func() { w.bindPod(podSpec{Name: "late-0", CPUm: 200, Del: ptr(int64(-134217728))}, target) }
+		case 2:
+			return "candidate_nominated", func() { w.cluster.NominateNodeForPod(w.ctx, providerID(target)) }
+		case 3:
+			return "candidate_marked_for_deletion", func() { w.cluster.MarkForDeletion(providerID(target)) }
+		case 4:
+			return "pod_deleted_from_candidate", func() { w.deletePodOn(target) }
+		case 5:
+			return "budget_closed", func() { w.closeBudget(cmd.Candidates[0].NodePool.Name) }
+		case 6:
+			return "every_candidate_gets_a_pod", func() {
+				for i, cd := range cmd.Candidates {
+					w.bindPod(podSpec{Name: fmt.Sprintf("late-%d", i), CPUm: 100}, cd.Name())
+				}
+			}
+		}
+		return "none", func() {}
+	}}
+	m2 := disruption.NewEmptiness(cons, disruption.WithValidator(tv))
+	cs2 := w.candidatesWith(m2.ShouldDisrupt, m2.Class())
+	out, err := m2.ComputeCommands(w.ctx, w.budget(), cs2...)
+	if w.fail != "" {
+		noCommand(c, w, "fault:list_"+w.fail+":during_validation:emptiness", out, err)
+		w.fail = ""
+		return
 	}
-	val := disruption.NewEmptinessValidator(cons)
-	var out disruption.Command
-	var verr error
-	duringTTL(w, apply, func() { out, verr = val.Validate(w.ctx, cmd, validationTTL) })
-	if verr != nil && !disruption.IsValidationError(verr) {
-		panic(fmt.Sprintf("emptiness Validate: %v", verr))
+	if err != nil {
+		panic(fmt.Sprintf("emptiness ComputeCommands with the real validator: %v", err))
 	}
-	cur := w.candidatesWith(func(context.Context, *disruption.Candidate) bool { return true }, meth.Class())
+	if tv.proposal == nil {
+		return
+	}
+	if tv.err != nil && !disruption.IsValidationError(tv.err) {
+		panic(fmt.Sprintf("emptiness Validate: %v", tv.err))
+	}
+	cmd := *tv.proposal
+	budgets, err := disruption.BuildDisruptionBudgetMapping(w.ctx, w.cluster, w.clk, w.c, w.cp, w.recorder, v1.DisruptionReasonEmpty)
+	if err != nil {
+		panic(err)
+	}
+	cur := w.candidatesWith(m2.ShouldDisrupt, m2.Class())
+	budgetOK := true
+	perPool := map[string]int{}
+	for _, cd := range cur {
+		perPool[cd.NodePool.Name]++
+	}
+	for pool, n := range perPool {
+		budgetOK = budgetOK && budgets[pool] >= n
+	}
 	curG := kit.GListOf(cur, func(cd *disruption.Candidate) string {
 		return kit.GPair(w.gCand(cd), kit.GBool(w.cluster.IsNodeNominated(cd.ProviderID())))
 	})
 	outG := "None"
-	if verr == nil {
-		kept := names(out.Candidates)
+	if len(out) == 1 {
+		kept := names(out[0].Candidates)
 		sort.Strings(kept)
 		outG = "(Some " + gstrs(kept) + ")"
 	}
-	vkey := fmt.Sprintf("validated/empty:%s:accepted=%v", change, verr == nil)
+	vkey := fmt.Sprintf("validated/empty:%s:accepted=%v", tv.change, len(out) == 1)
 	c.Count(vkey)
-	c.AddCase(fmt.Sprintf("CaseEmptyValidated %s %s %s", gstrs(names(cmd.Candidates)), curG, outG),
-		caseJSON{Kind: "validated:emptiness", World: w.spec, Cands: names(cmd.Candidates), Extra: map[string]interface{}{"during_ttl": change, "validation_error": fmt.Sprint(verr)}}, vkey)
+	c.AddCase(fmt.Sprintf("CaseEmptyValidated %s %s %s %s", gstrs(names(cmd.Candidates)), kit.GBool(budgetOK), curG, outG),
+		caseJSON{Kind: "validated:emptiness", World: w.spec, Cands: names(cmd.Candidates), Extra: map[string]interface{}{"during_ttl": tv.change, "validation_error": fmt.Sprint(tv.err)}}, vkey)
 }
 
 // ---- pure units
@@ -806,6 +1113,8 @@ func main() {
 		"Emptiness.ComputeCommands / Candidate.IsEmpty / computeRescheduleDisruptionCost = C06.Model.emptiness",
 		"EvictionCost = C06.Model.eviction_cost",
 		"resolveNodePrice (Candidate.Price) = C06.Model.cand_price",
+		"consolidation.ShouldDisrupt / Emptiness.ShouldDisrupt = C06.Model.should_disrupt_consolidation / should_disrupt_emptiness",
+		"disruption budgets in Single / Multi / Emptiness ComputeCommands = C06.Model.single_budget / multi_budget",
 		"ConsolidationValidator.Validate after the TTL, on the world as it is then (validateCandidates + mapCandidates + validateCommand) = C06.Model.validate",
 		"EmptinessValidator.Validate after the TTL = C06.Model.validate_empty",
 		"SimulateScheduling post-processing + Results.AllNonPendingPodsScheduled = C06.Model.errored / all_scheduled (through compute)",
@@ -813,7 +1122,7 @@ func main() {
 	c.Meta.Extra = map[string]interface{}{"assumptions": []string{
 		"Scheduler.Solve is an input of the model (its soundness is C01); a case is emitted only when two harness simulations around the call under test agree",
 		"prices are exact multiples of 2^-10 below 2^30; price overlays are not modelled",
-		"the balanced evaluator is not configured (default no-op evaluator); budgets are non-binding (C05)",
+		"Balanced NodePools: the balanced evaluator is run (SetNodePoolTotals) but modelled relationally: it may reject a command, never change it (theorems hold for any evaluator)",
 	}}
 	// constants
 	wk := []string{kit.GBool(v1.WellKnownLabels.Has(v1.CapacityTypeLabelKey)), kit.GBool(v1.WellKnownLabels.Has(corev1.LabelTopologyZone)), kit.GBool(v1.WellKnownLabels.Has(cloudprovider.ReservationIDLabel))}
